@@ -138,7 +138,6 @@ pub fn run(seed: u64) -> String {
                     Ok("ok".into())
                 }));
             }
-            drop(sr);
             let mut out = vec![];
             for r in reqs {
                 match r.await.map_err(|e| format!("join {:?}", e))? {
@@ -147,7 +146,10 @@ pub fn run(seed: u64) -> String {
                     Err(e) => return Err(e),
                 }
             }
+            // (the ping handle does not keep the connection open: the request handle is let go only when the pings
+            //  are through — otherwise the idle client may close under them, which is no failure of the library)
             pinger.await.map_err(|e| format!("join {:?}", e))??;
+            drop(sr);
             cdrv.await.map_err(|e| format!("join {:?}", e))??;
             server.await.map_err(|e| format!("join {:?}", e))??;
             Ok(out)
